@@ -2,8 +2,20 @@
    Statements only; proofs live in Keystore/TotalProofs*.v.  The model is Keystore/Model.v (b-c07): the
    read path of pkg/keystorev3 on /repo main after the repairs 5907a4c, 8b9f058, f9284a2, e53319d, every
    library call [Panic] outside the library's precondition (Keystore/Prims.v).  The independent V3
-   specification is Keystore/Spec.v.  Every theorem holds for every value of the primitives record
-   [P : prims] (scrypt, pbkdf2, AES-CTR, Keccak, JSON lexer, UUID parser): no law about them is used. *)
+   specification is Keystore/Spec.v.  Theorems 1-4 and 8 hold for every value of the primitives record
+   [P : prims] (scrypt, pbkdf2, AES-CTR, Keccak, JSON lexer, UUID parser): no law about them is used;
+   theorems 5-7 name the laws they use ([crypto_laws], [uuid_accepts_text], [uuid_parse_16]).
+
+   THE COST CAP (referee report, issue 1).  scrypt.Key allocates its work area, make([]uint32, 32*N*r),
+   AFTER its parameter test; the Go runtime panics ("makeslice: len out of range") when those 128*N*r
+   bytes exceed 2^48.  A 260-byte file with n = 2^42, r = 1 passes every guard of pkg/keystorev3 and of
+   the library and makes ReadWalletFile panic (confirmed against x/crypto v0.31.0, go1.23.5).  The model
+   has this panic ([call_scrypt], [scrypt_alloc_ok] in Keystore/Prims.v), so the totality statements and
+   the statements "otherwise an error" carry the explicit decidable guard [cost_capped] (on the decoded
+   content; [doc_alloc_ok] is the same cap in the strict specification's vocabulary) -- the part of the
+   property's quantifier "cost parameters capped so the KDF itself stays affordable" that is a matter of
+   panics.  At or below the cap the model assumes the allocation succeeds: memory exhaustion (a fatal
+   runtime error, the process dies; no panic) is not modelled. *)
 From Coq Require Import String.
 From Coq Require Import List NArith ZArith Lia Bool Arith.
 From Coq Require Import Init.Byte.
@@ -13,11 +25,41 @@ From FFS Require Import Base.Res Base.Bytes Keystore.Json Keystore.Prims Keystor
 From FFS Require Keystore.ProofsRead Keystore.Toy Keystore.TotalProofs5.
 Import ListNotations.
 
-(* 1. Reading any byte string with any password never panics. *)
+(* 1. Reading any byte string within the cost cap with any password never panics.  [cost_capped_bytes]:
+      the bytes do not lex, or the document does not decode as a key file of a known kdf, or it is a PBKDF2
+      file, or the n and r that the scrypt pass decodes satisfy 128*n*r <= 2^48. *)
 Theorem C15_total :
-  forall (P : prims) (bytes pw : bytes), ReadWalletFile P bytes pw <> Panic.
+  forall (P : prims) (bytes pw : bytes), cost_capped_bytes P bytes = true -> ReadWalletFile P bytes pw <> Panic.
 Proof. exact ReadWalletFile_total. Qed.
 Print Assumptions C15_total.
+
+(* ... and the cap is the ONLY way to panic: a panic of the read path means the document decodes as a scrypt
+   file with version 3, an id, dklen 32, r, p, N inside the library's parameter limits, whose work area
+   is beyond the allocation cap (the panic precedes the MAC and IV tests) *)
+Theorem C15_panic_only_beyond_cap :
+  forall (P : prims) (t : json) (pw : bytes),
+    read_wallet_tree P t pw = Panic ->
+    exists cf cc sp, decode_content P t = Some (cf, cc, KScrypt sp) /\
+      core_bad (cf, cc, KScrypt sp) = false /\ dklen_bad (cf, cc, KScrypt sp) = false /\
+      cost_bad (cf, cc, KScrypt sp) = false /\ scrypt_alloc_ok (sp_n sp) (sp_r sp) = false.
+Proof. exact read_panic_content. Qed.
+Print Assumptions C15_panic_only_beyond_cap.
+
+(* the call site itself, exactly *)
+Theorem C15_scrypt_decrypt_panic_iff :
+  forall (P : prims) (c : crypto_common) (kp : scrypt_params) (pw : bytes),
+    scrypt_decrypt P c kp pw = Panic <->
+    (sp_dklen kp = 32%Z /\ scrypt_pre (sp_n kp) (sp_r kp) (sp_p kp) 32 = true /\
+     scrypt_alloc_ok (sp_n kp) (sp_r kp) = false).
+Proof. exact scrypt_decrypt_panic_iff. Qed.
+Print Assumptions C15_scrypt_decrypt_panic_iff.
+
+(* an accepted file is within the cap *)
+Theorem C15_accepted_within_cap :
+  forall (P : prims) (t : json) (pw : bytes) (w : wallet),
+    read_wallet_tree P t pw = Ok w -> cost_capped P t = true.
+Proof. exact accept_cost_capped. Qed.
+Print Assumptions C15_accepted_within_cap.
 
 Example C15_total_classes_reachable :
   cls (read_wallet_tree toy good []) = 0%nat /\ cls (read_wallet_tree toy JNull []) = 1%nat
@@ -25,12 +67,12 @@ Example C15_total_classes_reachable :
 Proof. vm_compute. repeat split; reflexivity. Qed.
 
 (* 2. ... because every library call is made inside the library's precondition: none of the functions
-      holding a call site (scrypt.Key, pbkdf2.Key, aes.NewCipher + cipher.NewCTR, the slices of the
-      derived key) can panic, whatever they are given, and the guards that precede the two KDF calls
-      imply the KDF's no-panic domain. *)
+      holding a call site (scrypt.Key within the allocation cap, pbkdf2.Key, aes.NewCipher + cipher.NewCTR,
+      the slices of the derived key) can panic, whatever they are given, and the guards that precede the
+      two KDF calls imply the KDF's parameter-test domain. *)
 Theorem C15_calls_in_domain :
   forall P : prims,
-  (forall c kp pw, scrypt_decrypt P c kp pw <> Panic) /\
+  (forall c kp pw, scrypt_alloc_ok (sp_n kp) (sp_r kp) = true -> scrypt_decrypt P c kp pw <> Panic) /\
   (forall c kp pw, pbkdf2_decrypt P c kp pw <> Panic) /\
   (forall c dk, decryptCommon P c dk <> Panic) /\
   (forall key iv ct, aes128CtrDecrypt P key iv ct <> Panic) /\
@@ -89,6 +131,7 @@ Print Assumptions C15_no_foreign_key_cipher_refuted.
       _partial: the cipher disjunct is missing (refuted below). *)
 Theorem C15_malformed_rejected_partial :
   forall (P : prims) (bytes pw : bytes),
+    cost_capped_bytes P bytes = true ->
     match json_parse P bytes with
     | None => True
     | Some t =>
@@ -104,6 +147,7 @@ Print Assumptions C15_malformed_rejected_partial.
 (* the same in the form of the property text, on the lexed document *)
 Theorem C15_malformed_rejected_mac_valid :
   forall (P : prims) (t : json) (pw : bytes) (c : content),
+    cost_capped P t = true ->
     decode_content P t = Some c -> mac_valid P c pw = true ->
     (iv_bad c = true \/ dklen_bad c = true \/ cost_bad c = true \/ prf_bad c = true \/ core_bad c = true) ->
     exists e, read_wallet_tree P t pw = Err e.
@@ -139,6 +183,7 @@ Theorem C15_read_iff_spec :
   forall (P : prims), crypto_laws P -> uuid_accepts_text P ->
   forall (t : json) (pw k : bytes),
     v3_wellformed t = true -> ProofsRead.unambiguous t = true -> ProofsRead.nums_ok P t = true ->
+    doc_alloc_ok t = true ->
     ((exists w, read_wallet_tree P t pw = Ok w /\ PrivateKey w = k) <-> v3_decrypt_gen false P t pw = Ok k).
 Proof. exact TotalProofs5.read_iff_spec. Qed.
 Print Assumptions C15_read_iff_spec.
@@ -147,6 +192,7 @@ Theorem C15_read_err_iff_spec :
   forall (P : prims), crypto_laws P -> uuid_accepts_text P ->
   forall (t : json) (pw : bytes),
     v3_wellformed t = true -> ProofsRead.unambiguous t = true -> ProofsRead.nums_ok P t = true ->
+    doc_alloc_ok t = true ->
     ((exists e, read_wallet_tree P t pw = Err e) <-> (forall k, v3_decrypt_gen false P t pw <> Ok k)).
 Proof. exact TotalProofs5.read_err_iff_spec. Qed.
 Print Assumptions C15_read_err_iff_spec.
@@ -156,6 +202,7 @@ Example C15_read_iff_spec_nonvacuous :
   match TotalProofs5.iff_doc with
   | Some t =>
       v3_wellformed t = true /\ ProofsRead.unambiguous t = true /\ ProofsRead.nums_ok Toy.toy t = true /\
+      doc_alloc_ok t = true /\
       v3_decrypt_gen false Toy.toy t [x70; x77] = Ok [x01; x02; x03] /\
       (match read_wallet_tree Toy.toy t [x70; x77] with Ok w => PrivateKey w | _ => [] end) = [x01; x02; x03] /\
       (match read_wallet_tree Toy.toy t [x70] with Err _ => true | _ => false end) = true /\
@@ -238,6 +285,7 @@ Print Assumptions C15_read_wallet_shape.
 Theorem C15_read_iff_spec_any :
   forall (P : prims), crypto_laws P -> TotalProofs6.uuid_parse_16 P ->
   forall (b : bool) (t : json) (pw k : bytes),
+    cost_capped P t = true ->
     (exists w, read_wallet_tree P t pw = Ok w /\ PrivateKey w = k /\
                (b = true -> cc_cipher (w_crypto w) = cipherAES128ctr)) <->
     (exists c md, decode_content P t = Some c /\ unmarshal_metadata P t = Ok md /\
@@ -248,6 +296,7 @@ Print Assumptions C15_read_iff_spec_any.
 Theorem C15_read_err_iff_spec_any :
   forall (P : prims), crypto_laws P -> TotalProofs6.uuid_parse_16 P ->
   forall (t : json) (pw : bytes),
+    cost_capped P t = true ->
     (exists e, read_wallet_tree P t pw = Err e) <->
     (forall c md k, decode_content P t = Some c -> unmarshal_metadata P t = Ok md ->
                     v3_decrypt_gen false P (TotalProofs7.content_doc c) pw <> Ok k).
@@ -263,7 +312,8 @@ Example C15_read_iff_spec_any_nonvacuous :
   crypto_laws TotalProofs7.toy16 /\ TotalProofs6.uuid_parse_16 TotalProofs7.toy16 /\
   match TotalProofs7.lenient_doc with
   | Some t =>
-      v3_wellformed t = false /\ v3_decrypt_gen false TotalProofs7.toy16 t [x70; x77] = Err SInvalid /\
+      v3_wellformed t = false /\ cost_capped TotalProofs7.toy16 t = true /\
+      v3_decrypt_gen false TotalProofs7.toy16 t [x70; x77] = Err SInvalid /\
       match read_wallet_tree TotalProofs7.toy16 t [x70; x77] with
       | Ok w => PrivateKey w = [x01; x02; x03] /\
                 v3_decrypt TotalProofs7.toy16 (JSON_tree w) [x70; x77] = Ok [x01; x02; x03]
@@ -279,3 +329,120 @@ Example C15_read_iff_spec_any_nonvacuous :
   | None => False
   end.
 Proof. exact TotalProofs7.read_iff_spec_any_nonvacuous. Qed.
+
+(* 8. (answers to the referee report, design/reviews/C15.md) *)
+From FFS Require Keystore.TotalProofs8.
+
+(* issue 1: the cap at its boundary.  128*N*r <= 2^48 is N*r <= 2^41; just beyond it the model panics (as
+   the real call does), at it it does not, and beyond it the tests that precede the KDF call still answer
+   with errors *)
+Theorem C15_cost_cap_exact :
+  forall N r : Z, scrypt_alloc_ok N r = true <-> (N * r <= 2199023255552)%Z.
+Proof. exact TotalProofs8.scrypt_alloc_ok_iff. Qed.
+Print Assumptions C15_cost_cap_exact.
+
+Example C15_cost_cap_boundary :
+  scrypt_alloc_ok 2199023255552 1 = true /\ scrypt_alloc_ok 4398046511104 1 = false /\
+  scrypt_alloc_ok 1099511627776 2 = true /\ scrypt_alloc_ok 1099511627776 3 = false /\
+  scrypt_pre 4398046511104 1 1 32 = true /\ scrypt_pre 1099511627776 3 1 32 = true /\
+  cls (read_wallet_tree toy (toy_scrypt "4398046511104" "1" "1") []) = 2%nat /\
+  cost_capped toy (toy_scrypt "4398046511104" "1" "1") = false /\
+  cost_capped toy (toy_scrypt "2199023255552" "1" "1") = true /\
+  cls (read_wallet_tree toy (toy_scrypt "2199023255552" "1" "1") []) = 0%nat /\
+  cls (read_wallet_tree toy (toy_scrypt "4398046511104" "0" "1") []) = 1%nat /\
+  cls (read_wallet_tree toy (toy_scrypt "4398046511105" "1" "1") []) = 1%nat.
+Proof. vm_compute. repeat split; reflexivity. Qed.
+
+(* the malformations the code tests BEFORE the KDF call need no cap: a document that does not decode, a
+   wrong version / missing id, dklen <> 32, cost parameters outside the KDF's domain, another prf are
+   errors whatever n and r say *)
+Theorem C15_malformed_rejected_early :
+  forall (P : prims) (bytes pw : bytes),
+    match json_parse P bytes with
+    | None => True
+    | Some t =>
+        match decode_content P t with
+        | None => True
+        | Some c => (core_bad c || dklen_bad c || cost_bad c || prf_bad c) = true
+        end
+    end ->
+    exists e, ReadWalletFile P bytes pw = Err e.
+Proof. exact malformed_rejected_early_bytes. Qed.
+Print Assumptions C15_malformed_rejected_early.
+
+(* issue 3: "MAC valid for the password but cost parameters malformed" with jointly satisfiable
+   hypotheses: the MAC is judged with the key the library returns for the declared parameters whatever
+   they are ([mac_valid_lib]; x/crypto treats c <= 0 like c = 1) -- the case behind fix e53319d *)
+Theorem C15_malformed_cost_rejected_mac_valid_lib :
+  forall (P : prims) (t : json) (pw : bytes) (c : content),
+    decode_content P t = Some c -> TotalProofs8.mac_valid_lib P c pw = true ->
+    (cost_bad c = true \/ dklen_bad c = true \/ prf_bad c = true \/ core_bad c = true) ->
+    exists e, read_wallet_tree P t pw = Err e.
+Proof. exact TotalProofs8.malformed_cost_rejected_mac_valid_lib. Qed.
+Print Assumptions C15_malformed_cost_rejected_mac_valid_lib.
+
+Example C15_mac_valid_lib_cost_bad_nonvacuous :
+  let both t := match decode_content toy t with Some c => TotalProofs8.mac_valid_lib toy c [] && cost_bad c | None => false end in
+  both (toy_pbkdf2 "aes-128-ctr" 16 "32" "0") = true /\ both (toy_pbkdf2 "aes-128-ctr" 16 "32" "-5") = true /\
+  both (toy_scrypt "4" "0" "1") = true /\ both (toy_scrypt "3" "1" "1") = true /\
+  cls (read_wallet_tree toy (toy_pbkdf2 "aes-128-ctr" 16 "32" "0") []) = 1%nat.
+Proof. exact TotalProofs8.mac_valid_lib_cost_bad_nonvacuous. Qed.
+
+(* issue 3, second half: the library's parameter limits in arithmetic terms, independent of the
+   transcription [scrypt_params_ok] that the model and the specification share: a file whose scrypt N is
+   <= 1 or not a power of two, whose r*p >= 2^30, or whose r or p is <= 0 is an error of the decrypt step *)
+Theorem C15_scrypt_limits_rejected :
+  forall (P : prims) (c : crypto_common) (kp : scrypt_params) (pw : bytes),
+    (sp_r kp <= maxInt)%Z -> (sp_p kp <= maxInt)%Z ->
+    ((sp_n kp <= 1)%Z \/ (forall e, sp_n kp <> 2 ^ e)%Z \/ (1073741824 <= sp_r kp * sp_p kp)%Z \/
+     (sp_r kp <= 0)%Z \/ (sp_p kp <= 0)%Z) ->
+    exists e, scrypt_decrypt P c kp pw = Err e.
+Proof. exact TotalProofs8.scrypt_limits_rejected. Qed.
+Print Assumptions C15_scrypt_limits_rejected.
+
+Theorem C15_scrypt_params_ok_arith :
+  forall N r p : Z,
+    (0 < r)%Z -> (0 < p)%Z -> (r <= maxInt)%Z -> (p <= maxInt)%Z -> scrypt_params_ok N r p = true ->
+    (1 < N)%Z /\ (exists e, (0 < e)%Z /\ N = (2 ^ e)%Z) /\ (r * p < 1073741824)%Z /\ (128 * N * r <= maxInt)%Z.
+Proof. exact TotalProofs8.scrypt_params_ok_arith. Qed.
+Print Assumptions C15_scrypt_params_ok_arith.
+
+(* issue 4: structure malformations stated on the JSON tree, not through the model's decoder *)
+Theorem C15_non_object_rejected :
+  forall (P : prims) (t : json) (pw : bytes),
+    match t with JObj _ => False | _ => True end -> exists e, read_wallet_tree P t pw = Err e.
+Proof. exact TotalProofs8.non_object_rejected. Qed.
+Print Assumptions C15_non_object_rejected.
+
+Theorem C15_wrong_kind_rejected :
+  forall (P : prims) (ms : list (bytes * json)) (pw : bytes),
+    existsb (fun m => TotalProofs8.wrong_kind_top (fst m) (snd m)) ms = true ->
+    exists e, read_wallet_tree P (JObj ms) pw = Err e.
+Proof. exact TotalProofs8.wrong_kind_rejected. Qed.
+Print Assumptions C15_wrong_kind_rejected.
+
+Example C15_wrong_kind_nonvacuous :
+  existsb (fun m => TotalProofs8.wrong_kind_top (fst m) (snd m))
+          [(k "id", JStr (k "x")); (k "Version", JStr (k "3")); (k "crypto", JObj [])] = true /\
+  existsb (fun m => TotalProofs8.wrong_kind_top (fst m) (snd m)) [(k "CRYPTO", JArr [])] = true /\
+  existsb (fun m => TotalProofs8.wrong_kind_top (fst m) (snd m)) [(k "id", JNum (k "1"))] = true /\
+  match good with JObj ms => existsb (fun m => TotalProofs8.wrong_kind_top (fst m) (snd m)) ms | _ => true end = false.
+Proof. exact TotalProofs8.wrong_kind_nonvacuous. Qed.
+
+(* issue 5(i): Panic is reachable at every call site of the model, so "<> Panic" is not true by construction *)
+Example C15_call_sites_can_panic :
+  cls (call_scrypt toy [] [] 4 0 1 32) = 2%nat /\ cls (call_scrypt toy [] [] 4 1 1 (-1)) = 2%nat /\
+  cls (call_scrypt toy [] [] 4398046511104 1 1 32) = 2%nat /\
+  cls (call_pbkdf2 toy [] [] 1 (-1)) = 2%nat /\ cls (call_pbkdf2 toy [] [] 0 32) = 2%nat /\
+  cls (call_ctr toy (repeat x00 16) [] [x01]) = 2%nat /\ cls (slice [x01; x02] 1 3) = 2%nat /\
+  cls (readScryptWalletFile toy JNull [] None) = 2%nat /\ cls (readPbkdf2WalletFile toy JNull [] None) = 2%nat.
+Proof. vm_compute. repeat split; reflexivity. Qed.
+
+(* issue 5(ii): for EVERY primitives record the decryption never looks at the cipher member *)
+Theorem C15_decrypt_ignores_cipher :
+  forall (P : prims) (c : crypto_common) (s : bytes),
+    (forall dk, decryptCommon P (TotalProofs8.set_cipher c s) dk = decryptCommon P c dk) /\
+    (forall kp pw, scrypt_decrypt P (TotalProofs8.set_cipher c s) kp pw = scrypt_decrypt P c kp pw) /\
+    (forall kp pw, pbkdf2_decrypt P (TotalProofs8.set_cipher c s) kp pw = pbkdf2_decrypt P c kp pw).
+Proof. exact TotalProofs8.decrypt_ignores_cipher. Qed.
+Print Assumptions C15_decrypt_ignores_cipher.
